@@ -76,7 +76,27 @@ impl C06 {
                     self.rep.violate(&format!("C06|accepts-wrong-block|apply_block|{}", cls), format!("a block that is not the correct successor was accepted (mutation: {})", what), wit);
                 } else {
                     if h != blk.header {
-                        self.rep.violate("C06|returned-state-has-other-header|apply_block|accepted", "the state returned by apply_block does not have the block's header".into(), wit);
+                        self.rep.violate("C06|returned-state-has-other-header|apply_block|accepted", "the state returned by apply_block does not have the block's header".into(), wit.clone());
+                    }
+                    // "all of the block's transactions are valid against that state": each member must also be acceptable
+                    // when the members are applied one at a time, every one after those whose outputs it spends
+                    if what == "honest" && blk.transactions.len() >= 2 {
+                        let txs: Vec<Transaction> = blk.transactions.iter().cloned().collect();
+                        let seq = crate::mon::c03::topo_order(&txs);
+                        let p3 = parent.clone();
+                        let bad = guarded(move || {
+                            let mut st = p3.next_unsealed();
+                            for (i, t) in seq.iter().enumerate() {
+                                if let Err(e) = st.apply_tx(t) {
+                                    return Some((i, format!("{:?}", e), t.kind));
+                                }
+                            }
+                            None
+                        });
+                        self.rep.count("accepted blocks whose members were also applied one at a time");
+                        if let Ok(Some((i, e, kind))) = bad {
+                            self.rep.violate(&format!("C06|accepts-block-with-invalid-member|apply_block|honest-block,member-kind={}", kind), format!("the block was accepted although member {} (in dependency order) is refused when the members are applied one at a time: {}", i, e), wit);
+                        }
                     }
                     self.rep.count(if what == "honest" { "honest blocks accepted" } else { "mutated blocks that are still correct successors, accepted" });
                 }
